@@ -37,6 +37,7 @@ type Report struct {
 	PoolLog                              []uint8  // one entry per simulated Pool.Get
 	SwitchTrace                          []uint64 // task<<32|site for every context switch (capped)
 	LogTruncated                         bool
+	Overflow                             bool // a simulator table overflowed: discard the run
 	PoolFresh, PoolSame, PoolCross       int
 	Tasks                                int
 }
@@ -60,7 +61,8 @@ func lockSlotFor(addr uint64, create bool) *lockSlot {
 		}
 		i = (i + 1) & (maxLocks - 1)
 	}
-	panic("simrt: lock table full")
+	w.overflow = 1 // never panic inside the code under test: the run is reported as invalid
+	return &w.locks[0]
 }
 
 func onceSlotFor(addr uint64, create bool) *onceSlot {
@@ -79,7 +81,8 @@ func onceSlotFor(addr uint64, create bool) *onceSlot {
 		}
 		i = (i + 1) & (maxOnces - 1)
 	}
-	panic("simrt: once table full")
+	w.overflow = 1
+	return &w.onces[0]
 }
 
 func wgSlotFor(addr uint64, create bool) *wgSlot {
@@ -98,7 +101,8 @@ func wgSlotFor(addr uint64, create bool) *wgSlot {
 		}
 		i = (i + 1) & (maxWGs - 1)
 	}
-	panic("simrt: waitgroup table full")
+	w.overflow = 1
+	return &w.wgs[0]
 }
 
 func enabled(t int32) bool {
@@ -442,6 +446,7 @@ func Run(cfg Config, fns ...func()) Report {
 	w.traceHash, w.swHash = 14695981039346656037, 14695981039346656037
 	w.logLen, w.poolLogLen, w.nsw, w.descLen = 0, 0, 0, 0
 	w.done = 0
+	w.overflow = 0
 	w.ntasks = uint32(n)
 	poolBegin(cfg.Pool)
 	for i := 0; i < n; i++ {
@@ -461,6 +466,7 @@ func Run(cfg Config, fns ...func()) Report {
 		Yields: w.yields, Decisions: w.decisions, Switches: w.switches,
 		BlockedOnLock: w.blockedLk, BlockedOnOnce: w.blockedOn,
 		TraceHash: w.traceHash, SwitchHash: w.swHash, Tasks: int(w.ntasks),
+		Overflow: w.overflow != 0,
 	}
 	if atomic.LoadUint32(&w.done) == 2 {
 		rep.Deadlock = string(w.desc[:w.descLen])
